@@ -102,6 +102,16 @@ CHECKS.update({
             "DG[np.ix_(m, m)], DG[m, :][:, m] (anything else is reported as unmodelled, exit 2).", "DESIGN.md §4 C17"),
 })
 
+CHECKS.update({
+    "C12": (True, "symbolic execution of the constructor, setters and fit on an imager with symbolic ranges/pixel size "
+                  "(configuration histories of length 1-3), invariants decided on the derived attribute expressions; "
+                  "structural rule against truncated float quotients",
+            CLAUSE + "Decides GE-SIB (extent = resolution*pixel, resolution exact/rounded), GE-MESH (resolution+1 nodes, step "
+            "= pixel, starting at the covered range), GE-COVER (covers the request, excess < 1 pixel), GE-FIT. Declines: "
+            "float-level containment when (hi-lo)/pixel is not exactly representable.",
+            SYMNOTE + "Ranges of positive extent, pixel_size > 0.", "DESIGN.md §4 C12"),
+})
+
 NOT_APPLICABLE = {
     "C05": "soundness of the mGH lower/upper bounds is a theorem about computed values for every graph pair and RNG "
            "draw; no ownership, ordering, wiring or algebraic-type argument implies it (DESIGN.md §6); nearby "
